@@ -24,6 +24,14 @@ MODELS = [  # dir, table variable in event.c (None = handler has no table)
 ]
 
 PROBE = r'''
+/* mark the two members of every PAIR_x(...) declaration so the dump can tell which events the source pairs up */
+#include "ev_spec.h"
+#undef PAIR_E
+#undef PAIR_B
+#undef PAIR_S
+#define PAIR_E(MCV1, MCV2, desc) { MCV1, "\001" MCV2 "enters " desc }, { MCV2, "\002" MCV1 "leaves " desc },
+#define PAIR_B(MCV1, MCV2, desc) { MCV1, "\001" MCV2 "begins " desc }, { MCV2, "\002" MCV1 "ceases " desc },
+#define PAIR_S(MCV1, MCV2, desc) { MCV1, "\001" MCV2 "starts " desc }, { MCV2, "\002" MCV1 "stops  " desc },
 #include "%(dir)s/setup.c"
 %(event_inc)s
 #include <stdio.h>
@@ -113,7 +121,13 @@ def gen(work):
                 data["models"].append({"dir": f[1], "id": int(f[2]), "name": hexdec(f[3]), "version": hexdec(f[4]),
                                        "finish": int(f[5].split("=")[1])})
             elif f[0] == "EVDECL":
-                data["evdecl"].append({"model": f[1], "sig": hexdec(f[2]), "desc": hexdec(f[3])})
+                sig, desc = hexdec(f[2]), hexdec(f[3])
+                if desc[:1] == "\x01":
+                    data.setdefault("pairs", []).append({"model": f[1], "first": sig[:3], "second": desc[1:4]})
+                    desc = desc[4:]
+                elif desc[:1] == "\x02":
+                    desc = desc[4:]
+                data["evdecl"].append({"model": f[1], "sig": sig, "desc": desc})
             elif f[0] == "CHAN":
                 kv = dict(x.split("=", 1) for x in f[5:])
                 data["chans"].append({"model": f[1], "side": f[2], "index": int(f[3]), "name": hexdec(f[4]),
@@ -166,6 +180,10 @@ def gen(work):
     o.append("(* event declarations: (model id, signature) *)")
     o.append("Definition evdecls : list (Z * list Z) :=\n  [" + ";\n   ".join(
         "(%d, %s)" % (mid[e["model"]], zl(e["sig"])) for e in data["evdecl"]) + "].\n")
+    o.append("(* events paired by PAIR_E/PAIR_B/PAIR_S in the evlist: (model id, (c,v) of the first, (c,v) of the second) *)")
+    o.append("Definition evpairs : list (Z * (Z * Z) * (Z * Z)) :=\n  [" + ";\n   ".join(
+        "(%d, (%d, %d), (%d, %d))" % (mid[p_["model"]], ord(p_["first"][1]), ord(p_["first"][2]), ord(p_["second"][1]), ord(p_["second"][2]))
+        for p_ in data.get("pairs", [])) + "].\n")
     o.append("(* enum constants used by the hand-written part of the model *)")
     for c in data.get("consts", []):
         o.append("Definition c_%s_%s : Z := %d." % (c["model"], c["name"], c["value"]))
